@@ -305,44 +305,49 @@ def r6_no_identity_of_map_nodes(ctx):
 
 def r7_reanchor_at_gs(ctx):
     """every functional group restarts the walk at the GS node of the TRANSACTION map - whether or not the map file
-    had to be (re)loaded for it: in the GS branch of both drivers the current node is re-bound from
-    `<transaction map>.getnodebypath('/ISA_LOOP/GS_LOOP/GS')` on every path through the branch (a second group of
-    the same type would otherwise be walked from the control map, which has no transaction sets)"""
-    for mod, qual, target in (('x12context', 'X12ContextReader.iter_segments', 'self.x12_map_node'), ('x12n_document', 'x12n_document', 'node')):
+    had to be (re)loaded for it.  Decided by constant propagation through one iteration of the segment loop of both
+    drivers with the segment id fixed to GS (tests on the map file are followed both ways): on every way to the end of
+    the iteration the current node is the one `<transaction map>.getnodebypath('/ISA_LOOP/GS_LOOP/GS')` returned - a
+    second group of the same type would otherwise be walked from the control map, which has no transaction sets."""
+    from ..absint import explore
+    from ..cfg import CFG
+    for mod, qual, target, it in (('x12context', 'X12ContextReader.iter_segments', 'self.x12_map_node', 'self.src'), ('x12n_document', 'x12n_document', 'node', 'src')):
         fn = ctx.func(mod, qual)
         if target == 'node':
             target = A.current_node_var(fn) or 'node'
-        g = ctx.cfg(fn)
-        arms = [(lab, body, node) for lab, body, extra, node in
-                A.branch_chain_all(fn, A.name_or_call_pred('seg_id', 'seg.get_seg_id()')) if lab == 'GS'
-                and any(A.call_target(c)[1] == 'get_filename' for st_ in body for c in A.calls_in(st_))]
-        if not arms:
-            raise AnalysisError('%s:%s: GS branch not found' % (mod, qual))
-        for lab, body, node in arms:
-            first = None
-            inside = set()
-            for st in body:
-                for x in ast.walk(st):
-                    inside.add(id(x))
-            nodes_in = [nd for nd in g.nodes if nd.stmt is not None and id(nd.stmt) in inside or (nd.ast is not None and id(nd.ast) in inside)]
-            if not nodes_in:
-                continue
+        loops = [n for n in ast.walk(fn) if isinstance(n, ast.For) and path_of(n.iter) == it and isinstance(n.target, ast.Name)]
+        if len(loops) != 1:
+            raise AnalysisError('%s:%s: the segment loop was not found' % (mod, qual))
+        lp = loops[0]
+        synth = ast.parse('def _one_iteration():\n    for _once in (0,):\n        pass').body[0]
+        synth.body[0].body = list(lp.body)
+        ast.fix_missing_locations(synth)
+        g = CFG(synth)
+        seg = A.Model('GS segment', get_seg_id=lambda: 'GS', get_value=lambda rd: 'value of ' + rd)
+        funcs = {}
+        for c in A.calls_in(lp):
+            r, m = A.call_target(c)
+            if m == 'getnodebypath' and r:
+                last = r.split('.')[-1].split('__')[-1]
+                kind = 'TXN' if last == 'cur_map' else ('CTL' if last == 'control_map' else None)
+                if kind:
+                    funcs[r + '.' + m] = (lambda p_, kind=kind: '%s:%s' % (kind, p_))
+        if not any(k.split('.')[-2].split('__')[-1] == 'cur_map' for k in funcs):
+            raise AnalysisError('%s:%s: no lookup in the transaction map (cur_map.getnodebypath) in the segment loop' % (mod, qual))
+        finals = []
 
-            def rebinds(nd):
-                a = nd.ast
-                if nd.kind == 'stmt' and isinstance(a, ast.Assign) and any(path_of(t) == target for t in a.targets):
-                    v = a.value
-                    return isinstance(v, ast.Call) and A.call_target(v) == ('cur_map', 'getnodebypath') and v.args and \
-                        (A.const(v.args[0]) == '/ISA_LOOP/GS_LOOP/GS' or isinstance(v.args[0], ast.Name))
-                return False
-            entry = min(nodes_in, key=lambda nd: nd.id)
-            ids_in = {nd.id for nd in nodes_in}
-            path = g.find_path(entry, lambda n: n.id not in ids_in and n is not g.rexit and n.kind != 'raise', blocked=rebinds,
-                               edge_ok=lambda a_, l, b_: l != 'exc') if not rebinds(entry) else None
-            yield Ob('%s:%s GS branch re-binds the current node to the transaction map\'s GS on every path' % (mod, qual), path is None,
-                     ctx.floc(fn, node), '' if path is None else 'a path through the GS branch (line %s) leaves %s at the control map\'s GS node: '
-                     'the segments of this group are then not found in any transaction set'
-                     % ([n.lineno for n in path if n.lineno][-2:-1], target))
+        def on_node(nd, env, g=g):
+            if nd is g.exit:
+                finals.append(env.get(target, 'undetermined'))
+        try:
+            explore(g, {lp.target.id: seg, target: 'OLD'}, funcs=funcs, on_node=on_node, unknown='both')
+        except RuntimeError as e:
+            raise AnalysisError('%s:%s: %s' % (mod, qual, e))
+        if not finals:
+            raise AnalysisError('%s:%s: the end of the iteration is not reached for a GS segment' % (mod, qual))
+        bad = sorted({str(f) for f in finals if f != 'TXN:/ISA_LOOP/GS_LOOP/GS'})
+        yield Ob("%s:%s GS branch re-binds the current node to the transaction map's GS on every path" % (mod, qual), not bad, ctx.floc(fn, lp),
+                 '' if not bad else 'after a GS segment %s can be %s: the segments of this group are then not found in any transaction set' % (target, ', '.join(bad)))
 
 
 def r8_shared_children_order(ctx):
@@ -380,5 +385,5 @@ RULES = [
     Rule('C09.R10', 'shared with C04.R7: the position counter counts every body segment once and restarts at ST (constant propagation)', r10_shared_position_counter, floor=1),
     Rule('C09.R9', 'shared with C01.R3/R5: the tokenizer ends only at end of input, nothing lost at a buffer boundary', r9_shared_tokenizer, floor=6),
     Rule('C09.R8', 'shared with C10.R3: the tombstone sweep keeps the live children in source order', r8_shared_children_order, floor=10),
-    Rule('C09.R7', 'both drivers restart every functional group at the GS node of the transaction map', r7_reanchor_at_gs, floor=1),
+    Rule('C09.R7', 'both drivers restart every functional group at the GS node of the transaction map (constant propagation through one iteration)', r7_reanchor_at_gs, floor=2),
 ]
